@@ -147,6 +147,7 @@ class BaseCollection(BaseDisplayRepr):
         for child in self._children:
             child._parent = None
         self._children = []
+        self._update_src_and_sens()
         self.add(*children, override_parent=True)
 
     @property
@@ -163,6 +164,7 @@ class BaseCollection(BaseDisplayRepr):
     def sources(self, sources):
         """Set Collection sources."""
         # pylint: disable=protected-access
+        src_list = format_obj_input(sources, allow="sources")
         new_children = []
         for child in self._children:
             if child in self._sources:
@@ -170,7 +172,7 @@ class BaseCollection(BaseDisplayRepr):
             else:
                 new_children.append(child)
         self._children = new_children
-        src_list = format_obj_input(sources, allow="sources")
+        self._update_src_and_sens()
         self.add(*src_list, override_parent=True)
 
     @property
@@ -187,6 +189,7 @@ class BaseCollection(BaseDisplayRepr):
     def sensors(self, sensors):
         """Set Collection sensors."""
         # pylint: disable=protected-access
+        sens_list = format_obj_input(sensors, allow="sensors")
         new_children = []
         for child in self._children:
             if child in self._sensors:
@@ -194,7 +197,7 @@ class BaseCollection(BaseDisplayRepr):
             else:
                 new_children.append(child)
         self._children = new_children
-        sens_list = format_obj_input(sensors, allow="sensors")
+        self._update_src_and_sens()
         self.add(*sens_list, override_parent=True)
 
     @property
@@ -211,6 +214,7 @@ class BaseCollection(BaseDisplayRepr):
     def collections(self, collections):
         """Set Collection collections."""
         # pylint: disable=protected-access
+        coll_list = format_obj_input(collections, allow="collections")
         new_children = []
         for child in self._children:
             if child in self._collections:
@@ -218,7 +222,7 @@ class BaseCollection(BaseDisplayRepr):
             else:
                 new_children.append(child)
         self._children = new_children
-        coll_list = format_obj_input(collections, allow="collections")
+        self._update_src_and_sens()
         self.add(*coll_list, override_parent=True)
 
     @property
@@ -327,29 +331,31 @@ class BaseCollection(BaseDisplayRepr):
             typechecks=True,
         )
 
-        # assign parent
-        for obj in obj_list:
+        # check all objects before changing anything: a rejected call must not
+        # leave some of the objects half-added
+        for ind, obj in enumerate(obj_list):
             if isinstance(obj, Collection):
                 # no need to check recursively with `collections_all` if obj is already self
                 if obj is self or self in obj.collections_all:
                     raise MagpylibBadUserInput(
                         f"Cannot add {obj!r} because a Collection must not reference itself."
                     )
-            if obj._parent is None:
-                obj._parent = self
-            elif override_parent:
-                obj._parent.remove(obj)
-                obj._parent = self
-            else:
+            if obj._parent is not None and not override_parent:
                 raise MagpylibBadUserInput(
                     f"Cannot add {obj!r} to {self!r} because it already has a parent.\n"
                     "Consider using `override_parent=True`."
                 )
-
-        # set attributes
-        self._children += obj_list
-        self._update_src_and_sens()
-
+            if any(obj is other for other in obj_list[:ind]):
+                raise MagpylibBadUserInput(f"Cannot add {obj!r} more than once.")
+        # assign parent and set attributes, one complete object at a time
+        try:
+            for obj in obj_list:
+                if obj._parent is not None:
+                    obj._parent.remove(obj)
+                obj._parent = self
+                self._children.append(obj)
+        finally:
+            self._update_src_and_sens()
         return self
 
     def _update_src_and_sens(self):
